@@ -236,7 +236,17 @@ func Issue(spec CertSpec, parent *Cert, signKey crypto.Signer) *Cert {
 		v := cdpExtValue([][]string{{"http://delta.example/fresh.crl"}})
 		tmpl.ExtraExtensions = append(tmpl.ExtraExtensions, pkix.Extension{Id: oidFreshest, Value: v})
 	}
-	tmpl.ExtraExtensions = append(tmpl.ExtraExtensions, spec.Extra...)
+	for _, e := range spec.Extra { // the same benign extension may be requested twice by stacked modifications: keep one
+		dup := false
+		for _, have := range tmpl.ExtraExtensions {
+			if have.Id.Equal(e.Id) {
+				dup = true
+			}
+		}
+		if !dup {
+			tmpl.ExtraExtensions = append(tmpl.ExtraExtensions, e)
+		}
+	}
 
 	var parentX *x509.Certificate
 	var sk crypto.Signer
